@@ -26,6 +26,10 @@ T['C02'] = ("""C02 Each field maps to one attribute, named and typed as document
     ('C02_source_type_table', 'src_type_table_agrees', 'tie to the source: for every proto scalar type, the row of GetTerraformType as read from field_build_context.go on this run gives the attribute type, value type, element types, cast-to type, zero literal and cast-from type of the model'),
     ('C02_source_type_rows_unique', 'src_type_rows_unique', 'each proto type constant occurs in exactly one row of that switch'),
     ('C02_source_type_special', 'src_type_special_agrees', 'enum, time, duration, message and default rows'),
+    ('C02_schema_entry_of_declared_field', 'schema_entry_of_declared_field', "end to end, descriptor + configuration -> schema: every declared, not excluded, not embedded field of a message that builds has exactly one schema entry, under the documented name (override, JSON tag, snake case), with the documented type (scalar table, list, map, nested block single/list/map with the nested message's own entries, hook for custom types), provided the name is not used twice"),
+    ('C02_schema_entry_origin', 'schema_entry_origin', 'and conversely every schema entry stems from a declared field (directly or promoted from an embedded message), is the placeholder of a field-less message, or is an injected attribute: no stray attributes'),
+    ('C02_schema_names', 'schema_names_distinct', 'the attribute names of a schema are pairwise distinct and are exactly the documented names'),
+    ('C02_schema_through_run', 'schema_entry_through_run', 'the same stated for the roots the plugin emits for a request (through run)'),
 ])
 
 T['C03'] = ("""C03 CopyTo into an empty schema-typed object is total and schema-conformant (proved for the class tf_ok:
@@ -148,6 +152,8 @@ T['C10'] = ("""C10 Schema flags and metadata follow the configuration.""", [
     ('C10_front_end_flags', 'build_view_single', 'the front end sets the flags, validators, plan modifiers (UseStateForUnknown by default for computed fields when configured) and description from the configuration'),
     ('C10_placeholder_schema', 'build_message_placeholder', 'a message without fields gets exactly the placeholder field'),
     ('C10_placeholder_iff', 'build_message_empty_iff', 'and only such a message'),
+    ('C10_schema_entry_flags', 'schema_entry_of_declared_field', 'end to end: that one entry carries Required / Optional = not Required / Computed / Sensitive from the configuration lookups (path key first, then message-qualified key), the one-line description, the configured validators, and the configured plan modifiers or else UseStateForUnknown for computed fields when the default is on'),
+    ('C10_schema_roots_through_run', 'schema_roots_through_run', 'for the roots of a request: origin of every entry, distinct names, documented name set'),
 ])
 
 T['C11'] = ("""C11 Field-addressed options hit exactly the addressed fields; exclusion is surgical.""", [
@@ -200,6 +206,8 @@ T['C15'] = ("""C15 Declaration order never changes behaviour; sort makes output 
     ('C15_sorted_fields', 'C15_sorted_fields', 'with sort, permuting the declared fields of a message leaves its IR fields unchanged'),
     ('C15_sort_canonical', 'sort_by_perm_eq', 'sorting by pairwise distinct keys is canonical'),
     ('C15_fields_perm', 'build_field_list_perm', 'without sort, the fields of a permuted message are a permutation of the original ones (each field is built independently)'),
+    ('C15_schema_order_unsorted', 'schema_order_unsorted', 'without sort the schema entries follow declaration order (promoted fields in place of the embedded field, injected attributes last)'),
+    ('C15_schema_order_sorted', 'schema_order_sorted', 'with sort they are a permutation of the documented names, sorted by Go field name'),
 ])
 
 T['C16'] = ("""C16 Command-line and YAML configuration are equivalent channels.""", [
